@@ -23,7 +23,7 @@ CONSTANTS MaxN,      \* largest number of steps explored
           KSet,      \* memory lengths explored (KNone = no cutoff)
           ASet,      \* additional correlation times in units of dt (ANone, AInf)
           OSet,      \* coupling eigenvalue tuples explored
-          ShiftSet,  \* <<s1, s2>> cyclic shifts of the first/second half-step propagator
+          ShiftSet,  \* tuples of cyclic shifts of the successive half-step propagators (periodic)
           AlgSet,    \* subset of {"row", "col"}
           MinN,
           Emit       \* TRUE: print one CASE line per finished behaviour
@@ -181,7 +181,12 @@ Bounded ==
 (*   - SUM_c ( w_c * CoefRe[c] + i w'_c * CoefIm[c] ).                      *)
 (***************************************************************************)
 D == Len(o)
-Pos(x, r) == (x + (r - 1) * (sh[1] + sh[2]) + sh[1]) % D
+\* sh is the sequence of cyclic shifts of the successive half-step propagators, extended periodically
+\* (<<s1, s2>>: the same two half steps in every step; longer tuples: explicitly time-dependent systems)
+Sh(h) == sh[((h - 1) % Len(sh)) + 1]
+RECURSIVE SumShift(_)
+SumShift(k) == IF k = 0 THEN 0 ELSE Sh(k) + SumShift(k - 1)
+Pos(x, r) == (x + SumShift(2 * (r - 1) + 1)) % D
 Om(i0, j0, r) == o[Pos(i0, r) + 1] - o[Pos(j0, r) + 1]
 Op(i0, j0, r) == o[Pos(i0, r) + 1] + o[Pos(j0, r) + 1]
 
@@ -200,7 +205,7 @@ Expect ==
     [ m \in 1..N |->
         [ e \in 0..(D*D - 1) |->
             LET i0 == e \div D  j0 == e % D IN
-            [ pos |-> ((i0 + m * (sh[1] + sh[2])) % D) * D + ((j0 + m * (sh[1] + sh[2])) % D),
+            [ pos |-> ((i0 + SumShift(2 * m)) % D) * D + ((j0 + SumShift(2 * m)) % D),
               re  |-> [ c \in 0..MaxCell |-> CoefRe(i0, j0, m, c) ],
               im  |-> [ c \in 0..MaxCell |-> CoefIm(i0, j0, m, c) ] ] ] ]
 
